@@ -24,11 +24,11 @@ pub fn check_bounds(input: &[u8], offset: u32, size: u32, mipmap_index: usize) -
     }
 
     // Check if offset + size extends beyond input bounds
-    if (offset + size) as usize > input.len() {
+    if (offset as usize + size as usize) > input.len() {
         error!(
             "Offset+size of mipmap {} is out of bounds! {} > {}",
             mipmap_index,
-            offset + size,
+            offset as u64 + size as u64,
             input.len()
         );
         return Err(Error::OutOfBounds {
@@ -50,7 +50,7 @@ pub fn get_bounded_slice(
     mipmap_index: usize,
 ) -> ParseResult<&[u8]> {
     check_bounds(input, offset, size, mipmap_index)?;
-    Ok(&input[offset as usize..(offset + size) as usize])
+    Ok(&input[offset as usize..(offset as usize + size as usize)])
 }
 
 #[cfg(test)]
